@@ -100,6 +100,10 @@ Pow2(n) == IF n = 0 THEN 1 ELSE 2 * Pow2(n - 1)
 (* Family A: r symbols of count 1 followed by d symbols of counts          *)
 (* big, big+1, ...  Family B: all sequences of length 1..MaxLen over Menu. *)
 (* Family C: rounding boundaries (count f, total near 2*f*scale/(2k+1)).   *)
+(* Family D: flat and two-level histograms without a dominant symbol: a    *)
+(* symbols of count c1 then b symbols of count c2 (c1, c2 in Menu, every   *)
+(* a, b a multiple of MaxDom) -- the regime where every scaled frequency   *)
+(* is 1 or 2 and the whole residual has to be spread (seed C16c).          *)
 (***************************************************************************)
 CONSTANTS Impl, MaxRare, MaxDom, Bigs, LRs, MaxLen, Menu, Fam
 
@@ -122,6 +126,12 @@ Init == /\ lr \in LRs
                    /\ T - f - 1 >= 1
                    /\ T < 1000000000 \div Pow2(lr)
                    /\ hist = IF three THEN <<f, 1, T - f - 1>> ELSE <<f, T - f>>
+           ELSE IF Fam = "D"
+           THEN \E a \in 0..MaxRare, b \in {x \in 0..MaxRare : x % MaxDom = 0}, c1 \in Menu, c2 \in Menu :
+                   /\ a + b >= 1 /\ a + b <= 256 /\ a + b <= Pow2(lr)
+                   /\ (b > 0 => c1 # c2)
+                   /\ (a * c1 + b * c2) < 1000000000 \div Pow2(lr)
+                   /\ hist = [i \in 1..(a + b) |-> IF i <= a THEN c1 ELSE c2]
            ELSE /\ hist \in SeqsUpTo(MaxLen)
                 /\ Sum(hist) < 1000000000 \div Pow2(lr)
         /\ res = Normalize(Impl, hist, Sum(hist), Pow2(lr))
